@@ -364,7 +364,7 @@ Proof.
   rewrite (sum_spec_bg_eq (cK c) (cW c) (cData c) act starts (wf_syms c Hwf) Hr).
   eapply N.lt_le_trans; [|apply (sumN_term_le _ (length (cData c)) i Hi)].
   cbv beta. rewrite Ha. cbv iota.
-  pose proof (Forall_nth_lt _ (cData c) i [] Hstrict Hi) as Hl. cbv beta in Hl. Show. lia.
+  pose proof (Forall_nth_lt _ (cData c) i [] Hstrict Hi) as Hl. cbv beta in Hl. unfold seqt in *. lia.
 Qed.
 
 Lemma bg_sum_zero c act starts :
@@ -427,7 +427,7 @@ Theorem next_progress c st ch :
 Proof.
   intros Hwf Hstrict Hinv Hch. pose proof Hinv as [Hi Hlast Hoops]. unfold next.
   destruct (st_conv st) eqn:Econv; [eauto|].
-  destruct Hch as [Hch|[Hz [Hsel [Hupd [[i [Hne [Hilt Hia]]] Hstep]]]]]; [discriminate|].
+  destruct Hch as [Hch|[Hz [Hsel [Hupd [[i [Hne [Hilt Hia]]] Hstep]]]]]; [congruence|].
   set (z := ch_z ch) in *.
   rewrite (select_holdout_ok c st z Hi Hz Hsel). cbn [rbind].
   assert (Hza : (z < length (st_active st))%nat) by (rewrite (ci_act_len c st Hi); auto).
@@ -500,4 +500,131 @@ Proof.
   cbn [run]. rewrite En. cbn [rbind fst].
   destruct (next_inv c st ch st' oit Hwf Hinv En) as [Hinv' _].
   destruct (IH st' Hinv' (Hrest st' oit En)) as [t Et]. rewrite Et. cbn [rbind]. eauto.
+Qed.
+
+(* ---------- states of a trace; prefixes; Oops ---------- *)
+
+Lemma trace_ok_states c t : forall st, trace_ok c st t -> Forall (fun x => Inv c (fst x)) t.
+Proof.
+  induction t as [|[st' oit] r IH]; intros st H; constructor.
+  - cbn [trace_ok] in H. cbn [fst]. tauto.
+  - cbn [trace_ok] in H. apply (IH st'). tauto.
+Qed.
+
+(* the trace of the first calls does not depend on later choices *)
+Lemma run_prefix c chs1 chs2 : forall st t,
+  run c st (chs1 ++ chs2) = Ok t ->
+  exists t1 t2, t = t1 ++ t2 /\ run c st chs1 = Ok t1 /\ length t1 = length chs1.
+Proof.
+  induction chs1 as [|ch r IH]; intros st t H.
+  - exists [], t. simpl. auto.
+  - cbn [app run] in *. destruct (next c st ch) as [x|e|s|]; cbn [rbind] in *; try discriminate.
+    destruct (run c (fst x) (r ++ chs2)) as [t'|e|s|] eqn:E; cbn [rbind] in *; try discriminate.
+    inversion H; subst t; clear H.
+    destruct (IH (fst x) t' E) as [t1 [t2 [-> [E1 Hl]]]].
+    exists (x :: t1), t2. rewrite E1. cbn [rbind]. repeat split; simpl; auto.
+Qed.
+
+(* Oops: every sequence stays active (field inv_oops of Inv) and the sampler never converges *)
+Lemma next_oops_conv c st ch st' oit :
+  WF c -> Inv c st -> cMode c = Oops -> st_conv st = false ->
+  next c st ch = Ok (st', oit) -> st_conv st' = false /\ oit <> None.
+Proof.
+  intros Hwf [Hi Hlast Hoops] Hm Hconv. unfold next. rewrite Hconv, Hm.
+  destruct (select_holdout c st (ch_z ch)) as [z| | |]; cbn [rbind]; try discriminate.
+  destruct (bv_test (st_active st) z) as [a| | |] eqn:Ea; cbn [rbind]; try discriminate.
+  apply bv_test_inv in Ea. destruct Ea as [Hza _].
+  assert (Hz : (z < length (cData c))%nat) by (rewrite <- (ci_act_len c st Hi); auto).
+  destruct (resample c st z (ch_upd ch)) as [[cm st3]| | |] eqn:Er; cbn [rbind]; try discriminate.
+  destruct (resample_ok c st z (ch_upd ch) cm st3 Hwf Hi Hz Er) as [_ [_ [[_ [_ Hc3]] _]]].
+  cbn [fst snd]. destruct (st_step st3 + 1 <=? usize_max); try discriminate.
+  intros H. inversion H; subst. cbn [st_conv]. split; [congruence|discriminate].
+Qed.
+
+Lemma run_oops c chs : WF c -> cMode c = Oops -> forall st t,
+  Inv c st -> st_conv st = false -> run c st chs = Ok t ->
+  Forall (fun x => st_conv (fst x) = false /\ snd x <> None /\
+                   forall i, (i < length (cData c))%nat -> nth i (st_active (fst x)) false = true) t.
+Proof.
+  intros Hwf Hm. induction chs as [|ch r IH]; intros st t Hinv Hconv H.
+  - simpl in H. inversion H. constructor.
+  - cbn [run] in H. destruct (next c st ch) as [[st' oit]|e|s|] eqn:En; cbn [rbind] in H; try discriminate.
+    cbn [fst] in H. destruct (run c st' r) as [t'|e|s|] eqn:E; cbn [rbind] in H; try discriminate.
+    inversion H; subst t; clear H.
+    destruct (next_inv c st ch st' oit Hwf Hinv En) as [Hinv' _].
+    destruct (next_oops_conv c st ch st' oit Hwf Hinv Hm Hconv En) as [Hc' Hsome].
+    constructor.
+    + cbn [fst snd]. split; [exact Hc'|]. split; [exact Hsome|]. apply (inv_oops c st' Hinv' Hm).
+    + apply (IH st'); auto.
+Qed.
+
+(* ---------- reading of the recomputation (validation of the specification itself) ---------- *)
+
+Lemma skipn_add {A} (l : list A) a b : skipn b (skipn a l) = skipn (a + b) l.
+Proof.
+  revert l; induction a as [|a IH]; intros l; [reflexivity|].
+  destruct l as [|x l]; simpl; [destruct b; reflexivity|apply IH].
+Qed.
+
+Lemma count_sym_app a b k : count_sym (a ++ b) k = count_sym a k + count_sym b k.
+Proof. induction a as [|x a IH]; simpl; [reflexivity|]. rewrite IH. lia. Qed.
+
+(* symbol counts minus window counts = counts of the sequence with its window cut out *)
+Lemma outside_window W s st k :
+  count_sym s k - win_count W s st k = count_sym (firstn st s ++ skipn (st + W) s) k.
+Proof.
+  unfold win_count.
+  rewrite <- (firstn_skipn st s) at 1. rewrite !count_sym_app.
+  rewrite <- (firstn_skipn W (skipn st s)) at 1. rewrite count_sym_app.
+  rewrite skipn_add. set (b := count_sym (firstn W (skipn st s)) k).
+  set (a := count_sym (firstn st s) k). set (d := count_sym (skipn (st + W) s) k).
+  clearbody a b d. lia.
+Qed.
+
+Lemma spec_bg_outside W data act starts k :
+  spec_bg_cell W data act starts k =
+  sumN (fun i => if nth i act false
+                 then count_sym (firstn (nth i starts O) (nth i data [])
+                                 ++ skipn (nth i starts O + W) (nth i data [])) k
+                 else 0) (length data).
+Proof.
+  unfold spec_bg_cell. apply sumN_ext. intros i _. unfold contrib_bg.
+  destruct (nth i act false); [apply outside_window|reflexivity].
+Qed.
+
+(* every row of the recomputed count matrix sums to the number of active sequences *)
+Lemma spec_motif_row_sum K W data act starts j :
+  Forall (Forall (fun a => (a < K)%nat)) data ->
+  length act = length data ->
+  starts_in_range W data starts = true ->
+  (j < W)%nat ->
+  sumN (spec_motif_cell data act starts j) K = count_true act.
+Proof.
+  intros Hs Hl Hr Hj. apply starts_in_range_spec in Hr. destruct Hr as [_ Hr].
+  unfold spec_motif_cell, count_true.
+  change (sumN (fun k => sumN (fun i => contrib_motif data act starts j k i) (length data)) K
+          = sumN (fun i => ind (nth i act false)) (length act)).
+  rewrite <- (sumN_exchange (fun i k => contrib_motif data act starts j k i) (length data) K).
+  rewrite Hl. apply sumN_ext. intros i Hi. unfold contrib_motif.
+  destruct (nth i act false); [|apply sumN_zero; auto].
+  specialize (Hr i Hi).
+  rewrite (sumN_ext _ (fun k => ind (Nat.eqb (nth (nth i starts O + j) (nth i data []) O) k))).
+  - rewrite sum_ind_eq.
+    assert (Hlt : (nth (nth i starts O + j) (nth i data []) O < K)%nat).
+    { apply sym_lt; [|unfold seqt in *; lia]. apply Forall_nth_lt; auto. }
+    apply Nat.ltb_lt in Hlt. rewrite Hlt. reflexivity.
+  - intros k _. apply win_cell_nth. unfold seqt in *. lia.
+Qed.
+
+Lemma motif_row_sum c st j :
+  WF c -> CInv c st -> (j < cW c)%nat ->
+  sumN (mcell (st_motif st) j) (cK c) = st_count st.
+Proof.
+  intros Hwf Hi Hj. rewrite (ci_motif c st Hi), (ci_count c st Hi), recompute_motif_mtab.
+  rewrite (sumN_ext _ (spec_motif_cell (cData c) (st_active st) (st_starts st) j))
+    by (intros k Hk; apply mcell_mtab; auto).
+  apply (spec_motif_row_sum (cK c) (cW c)); auto.
+  - apply (wf_syms c Hwf).
+  - apply (ci_act_len c st Hi).
+  - apply (ci_range c st Hi).
 Qed.
